@@ -468,7 +468,7 @@ class CoreEnforcer:
                     if not result:
                         policy_effects.add(Effector.INDETERMINATE)
                         continue
-                elif isinstance(result, float):
+                elif isinstance(result, (int, float)):
                     if 0 == result:
                         policy_effects.add(Effector.INDETERMINATE)
                         continue
